@@ -1,6 +1,6 @@
 #!/bin/bash
 # Re-runs every kept seed against the current quick check of its property (C03-b: C13, see DESIGN.md §7).
-cd /verif
+cd "$(dirname "$0")/.."
 for d in seeded/C*; do
   s=$(basename $d); p=${s%%-*}
   if [ "$s" = "C03-b" ]; then p=C13; fi
